@@ -3,6 +3,11 @@ import gen
 import c19
 
 PROPS = {
+    "C11": dict(
+        files=[("op::data", "c11_data.rs")],
+        bounds="units of the lookup: index helper (len<=3, every i64), key typing per shape, string data <=2 chars of symbolic width, array data of 2 scalars, paths <=2 (quick) / 3 (thorough) chars over {a . \\ 1}, default logic on concrete keys",
+        out="nested object paths and objects (BTreeMap search over symbolic node contents), the frame property over arbitrary data trees, computed keys, var with a symbolic key through the public function",
+    ),
     "C19": dict(files=[], runner=c19.run_c19),
     "C16": dict(
         files=[("op", "c16_op.rs")],
